@@ -1,12 +1,14 @@
 package checks
 
 import (
+	"context"
 	"fmt"
 	"sort"
 	"testing"
 
 	"github.com/mitchellh/mapstructure"
 
+	"github.com/projecteru2/core/resource/cobalt"
 	"github.com/projecteru2/core/resource/plugins"
 	cpumemtypes "github.com/projecteru2/core/resource/plugins/cpumem/types"
 	plugintypes "github.com/projecteru2/core/resource/plugins/types"
@@ -38,6 +40,19 @@ type c32Case struct {
 	R1    float64  `json:"r1,omitempty"` // history: first bound request
 	R2    float64  `json:"r2,omitempty"` // history: second bound request
 	Order int      `json:"release_order,omitempty"`
+}
+
+const c32MergeReps = 48
+
+// c32Side is a second resource plugin whose remap answer names every workload of the node.
+type c32Side struct{ c9Plugin }
+
+func (p *c32Side) CalculateRemap(_ context.Context, _ string, ws map[string]plugintypes.WorkloadResource) (*plugintypes.CalculateRemapResponse, error) {
+	resp := &plugintypes.CalculateRemapResponse{EngineParamsMap: map[string]plugintypes.EngineParams{}}
+	for id := range ws {
+		resp.EngineParamsMap[id] = plugintypes.EngineParams{"side": []string{"x"}}
+	}
+	return resp, nil
 }
 
 var c32Kinds = []string{"U0", "U1", "U2", "B1", "B2"}
@@ -132,7 +147,8 @@ func c32Node(capP, free []int) *cpumemtypes.NodeResourceInfo {
 }
 
 func remapEnum(c *vcore.Ctx) {
-	c.SetRule("A: every node of k cores, per core (capacity, free) with capacity {1,2} cores and free {0,.3,1,2} cores (free <= capacity), share base {100,10} x every multiset of <= 3 resident workloads over {U0 unbound no limits, U1 unbound cpu .5 mem 30, U2 unbound cpu-limit 2, B1 bound to core 0, B2 bound to .3 of the last core}: Plugin.CalculateRemap and Manager.Remap; " +
+	c.Assume("the order in which the manager merges the answers of two plugins is Go map iteration order, which the harness cannot choose: the two-plugin call is repeated 48 times per case instead of being enumerated over both orders")
+	c.SetRule("A: every node of k cores, per core (capacity, free) with capacity {1,2} cores and free {0,.3,1,2} cores (free <= capacity), share base {100,10} x every multiset of <= 3 resident workloads over {U0 unbound no limits, U1 unbound cpu .5 mem 30, U2 unbound cpu-limit 2, B1 bound to core 0, B2 bound to .3 of the last core}: Plugin.CalculateRemap, Manager.Remap, and Manager.Remap of a manager with cpumem plus a second plugin that answers for every workload (repeated 48 times: the merge order is Go map order); " +
 		"B: histories on the same nodes (k <= 2 quick, <= 3 thorough) with two resident unbound workloads allocated through Manager.Alloc: alloc bound r1 -> remap -> alloc bound r2 -> remap -> release one -> remap -> release the other -> remap, r1,r2 in {.5,1,1.2,2}, both release orders, Manager.Remap checked after every step; " +
 		"oracle: every unbound workload's engine cpu set = {cores with free >= share base} (all cores when empty), bound workloads absent; non-trivial = a remap call with at least one unbound workload (A: distinct by config,node,mix; B: by config,node,r1,r2,order,step)")
 	envs := penvCache{}
@@ -275,6 +291,30 @@ func c32Direct(c *vcore.Ctx, env *world.PluginEnv, rc *c32Case) {
 		res2[id] = r["cpumem"]
 	}
 	c32Verify(c, rc, "Manager.Remap", "direct", res2, bound, pool)
+	// the same node served by cpumem AND a second plugin that also returns engine params for every
+	// workload: the unbound workloads must still get their cores. The manager merges the plugins'
+	// answers in Go map order, which the harness does not control: the call is repeated c32MergeReps times
+	mgr2, err := cobalt.New(env.Config)
+	if err != nil {
+		c.HarnessError("cobalt.New: %v", err)
+		return
+	}
+	mgr2.AddPlugins(env.Plugin, &c32Side{c9Plugin{name: "zside"}})
+	for rep := 0; rep < c32MergeReps; rep++ {
+		mres, err := mgr2.Remap(bg, node, wls)
+		if err != nil {
+			c.Eval()
+			c.Violate("C32/remap-fails", fmt.Sprintf("Manager.Remap with two plugins fails: %v | case=%s", err, vcore.JSON(rc)), rc)
+			return
+		}
+		res3 := map[string]map[string]any{}
+		for id, r := range mres {
+			if r["cpumem"] != nil {
+				res3[id] = r["cpumem"]
+			}
+		}
+		c32Verify(c, rc, "Manager.Remap (cpumem + a second plugin answering for every workload)", "direct", res3, bound, pool)
+	}
 	if c.WantSample() && unbound > 0 && unbound < len(rc.Mix) && len(pool) < len(rc.Cap) && len(rc.Cap) == 3 {
 		c.Sample(map[string]any{"case": rc, "share_pool": pool, "manager_remap": mres})
 	}
